@@ -23,6 +23,7 @@ def enumEntryOK (e : Str × Str) : Bool :=
 NCNames, `xml` ↔ the XML namespace -/
 def envOK (env : NsEnv) : Bool :=
   env.saxXmlNs == xmlNsUri && dget env.enum xmlNsUri == some xmlPrefix && env.enum.all enumEntryOK
+  && env.xmlUri == xmlNsUri && env.xmlPrefix == xmlPrefix
 
 /-! ### user prefix map (after `clean_prefixes`) -/
 
@@ -30,8 +31,8 @@ def envOK (env : NsEnv) : Bool :=
 prefix other than `xmlns`, `xml` only for the XML namespace, a namespace name that
 needs no escaping.  (Since a086d5b `generate_prefix` never rebinds a key, so
 prefixes of the form `ns<digits>` and standard prefixes bound elsewhere are fine.) -/
-def userMapOK (_env : NsEnv) (m : List (Pfx × Str)) : Bool :=
-  (serializerNsMap m).all declOK
+def userMapOK (env : NsEnv) (m : List (Pfx × Str)) : Bool :=
+  (serializerNsMap m).all declOK && prefixesValid env (serializerNsMap m)
 
 /-- the user's default namespace, if any -/
 def userDefault (m : List (Pfx × Str)) : Option Str := dget (serializerNsMap m) none
